@@ -289,6 +289,9 @@ func (h *histRun) checkBoundary() {
 			if r.Kind == "get" && strings.Contains(r.Subject, "{cid}") {
 				h.viol(Viol{Prop: "C10", T: e.T, RID: r.Subject, Sig: "cidNotExpanded", Msg: "subject " + r.Subject + " still contains the {cid} tag"})
 			}
+			if strings.Contains(r.Query, "{cid}") {
+				h.viol(Viol{Prop: "C10", T: e.T, RID: r.Subject, Sig: "cidNotExpanded", Msg: fmt.Sprintf("request %s carries the query %q with the {cid} tag unexpanded", r.Subject, r.Query)})
+			}
 		}
 	}
 	// no frame may contain any connection id
